@@ -153,6 +153,14 @@ def remesh_count(ctx, n=2, nb=2):
     ctx.prove("number density does not increase on a re-mesh that covers the populated range", ctx.le(after, before))
 
 
+def psd_update_every_phase(ctx, **kw):
+    """as C03.update_psd_faults (imported lazily: c03 imports c02): after the size-distribution update of a step EVERY phase's stored distribution,
+    grid, tables and PSD record were brought up to date, also when an earlier-listed phase was reset -- the statistics appended for the step are
+    moments of a distribution the model really holds"""
+    from harness import c03
+    return c03.update_psd_faults(ctx, **kw)
+
+
 _F = [PrecipitateModel._calcMassBalance, PBM.ZeroMomentFromN, PBM.MomentFromN, PBM.ThirdMomentFromN, PBM.WeightedMomentFromN, PBM.getdXdtEuler,
       PBM.correctdXdtEuler, PBM.UpdatePBMEuler, PrecipitateModel._getdXdt, PrecipitateModel._correctdXdt, PrecipitateBase.correctdXdt, DESolver._updateX, DESolver._getdXdt]
 _A = ["real arithmetic", "populations >= 0, uniform grids, molar volumes and volume factor > 0", "spherical shape factor (aspect ratio 1)"]
@@ -165,6 +173,10 @@ HARNESSES = [
             assumptions=["as C08.op_adjust with adaptive binning off: a filled last class still gets classes appended, so growing particles do not leave through the top of the grid (the number density would fall without dissolution)"],
             opts={"ob_timeout": 30.0}, params={"quick": [{"n": 3, "orig": 4, "minb": 2, "maxb": 3, "adaptive": False, "diss": True}, {"n": 2, "orig": 4, "minb": 2, "maxb": 3, "adaptive": False, "diss": False}],
                                               "thorough": [{"n": 4, "orig": 8, "minb": 2, "maxb": 3, "adaptive": False, "diss": True}]}),
+    Harness("C02.psd_update_every_phase", psd_update_every_phase, functions=[PrecipitateModel._updateParticleSizeDistribution],
+            assumptions=["as C03.update_psd_faults, two phases, PSD recording on, the first-listed phase may be reset (negative driving force, no equilibrium)"],
+            opts={"ob_timeout": 30.0}, budget={"quick": 150.0, "thorough": 600.0},
+            params={"quick": [{"nph": 2, "ncls": 2, "nel": 2, "mode": "append", "recording": True}], "thorough": [{"nph": 3, "ncls": 2, "nel": 2, "mode": "append", "recording": True, "_shards": 4}]}),
     Harness("C02.remesh_count", remesh_count, functions=[PBM.changeSizeClasses, PBM.ThirdMoment],
             assumptions=["arbitrary valid state (uniform grid, populations >= 0); the new grid covers the old one"], opts={"ob_timeout": 40.0, "max_paths": 200},
             budget={"quick": 90.0, "thorough": 600.0}, params={"quick": [{"n": 2, "nb": 2}], "thorough": [{"n": 3, "nb": 2}, {"n": 2, "nb": 3}]}),
